@@ -12,7 +12,7 @@
 (*   0: no grid passed (the full native grid)                                                                  *)
 (* Alphabet "G": the same classes on a constant-resolution-like native grid (gaps 1,1,..,2,..,3,..,6).         *)
 EXTENDS GridHistory
-CONSTANTS Alphabet, XMax, XShape
+CONSTANTS Alphabet
 
 NatU == [i \in 1..20 |-> 2 * i]
 MolU == <<1, 7, 13, 21, 29, 35, 43>>
@@ -43,17 +43,4 @@ XSameEnds == {p \in HWinIds \X HWinIds : /\ p[1] # 0 /\ p[2] # 0 /\ HClip(p[1]) 
                                           /\ HReq(p[1])[1] = HReq(p[2])[1]
                                           /\ HReq(p[1])[Len(HReq(p[1]))] = HReq(p[2])[Len(HReq(p[2]))]}
 
-\* ---- export of behaviours (binding C): sequences of evaluations of ONE object of the memo-free design
-VARIABLE hist
-XInit == HInit /\ hist = <<>>
-XNext == \/ \E w \in HWinIds : evald /\ HSetWin(w) /\ UNCHANGED hist
-         \/ HEval /\ hist' = Append(hist, [w |-> win, grid |-> [k \in 1..Len(out') |-> out'[k].wn]])
-XSpec == XInit /\ [][XNext]_<<hvars, hist>>
-XBound == Len(hist) <= XMax /\ ((XShape = "fullmiddle" /\ Len(hist) = 3) => hist[2].w = 0)
-XEmit == /\ (hist = <<>> /\ win = 0) =>
-              PrintT(<<"ALPHA", ToJson([alphabet |-> Alphabet, nat |-> HNat, mol |-> HMol, wins |-> HWins,
-                                        clips |-> [w \in 1..Len(HWins) |-> <<HLo(w), HHi(w)>>],
-                                        samesize |-> XSameSize, samefirst |-> XSameFirst, sameends |-> XSameEnds])>>)
-         /\ (evald /\ (Len(hist) = XMax \/ (XShape = "fullmiddle" /\ Len(hist) = 2 /\ hist[2].w # 0))) =>
-              PrintT(<<"BEH", ToJson([alphabet |-> Alphabet, evals |-> hist])>>)
 =============================================================================
